@@ -1,4 +1,6 @@
 import OptiModel.Num
 import OptiModel.Model.Parax
 import OptiModel.Model.Real
+import OptiModel.Proofs.NumReal
+import OptiModel.Props.C02
 import OptiModel.Props.C04
